@@ -54,6 +54,7 @@ impl Check for C11 {
             Phase { name: "protected header holding a single field only (the is_empty interaction), in every carrier", cases: 8 * 9, exhaustive: true },
             Phase { name: "0/1/2/3 counter-signatures; recipient trees of depth <= 3 with empty and non-empty lists", cases: scale(if q { 18000 } else { 100000 }, b), exhaustive: false },
             Phase { name: "values decoded from styled wire forms (retained protected bytes must be re-emitted)", cases: scale(if q { 30000 } else { 200000 }, b), exhaustive: false },
+            Phase { name: "built counter-signature chains of depth 1-10 through protected / unprotected / mixed headers: whether the encoding decodes may depend on the depth only", cases: 10, exhaustive: true },
         ]
     }
     fn run_case(&self, ctx: &mut Ctx, phase: usize, idx: u64) {
@@ -101,6 +102,46 @@ impl Check for C11 {
                     if let Some(b) = encode_oracle(ctx, &v, "struct literal") {
                         ctx.nontrivial_bytes(&b);
                     }
+                }
+            }
+            5 => {
+                let depth = idx as usize + 1;
+                let mut outcomes: Vec<(String, bool)> = Vec::new();
+                for pattern in 0..4u32 {
+                    let mut h = MHeader { kid: vec![7], ..Default::default() };
+                    for level in 0..depth {
+                        let via_prot = match pattern {
+                            0 => true,
+                            1 => false,
+                            2 => level % 2 == 0,
+                            _ => level % 2 == 1,
+                        };
+                        let sig = if via_prot { MSignature { prot: MProt { bytes: None, header: h.clone() }, unprot: MHeader::default(), sig: vec![1] } } else { MSignature { prot: MProt::default(), unprot: h.clone(), sig: vec![2] } };
+                        h = MHeader { csigs: vec![sig], ..Default::default() };
+                    }
+                    ctx.eval();
+                    let v = MVal::Header(h);
+                    let c = match crate::capi::build(&v) {
+                        Some(c) => c,
+                        None => continue,
+                    };
+                    match crate::capi::to_vec(c) {
+                        Ok(b) => {
+                            ctx.nontrivial_bytes(&b);
+                            let ok = crate::capi::from_slice(Ty::Header, &b).is_ok();
+                            outcomes.push((["protected", "unprotected", "alternating (protected first)", "alternating (unprotected first)"][pattern as usize].to_string(), ok));
+                            if ok || depth <= 4 {
+                                // within the modelled depth the full oracle applies
+                                if depth <= 4 {
+                                    encode_oracle(ctx, &v, "struct literal (chain)");
+                                }
+                            }
+                        }
+                        Err(k) => ctx.violation(&format!("C11/encode-failed/chain/{}", k.name()), format!("a counter-signature chain of depth {} does not encode", depth), J::Null),
+                    }
+                }
+                if outcomes.iter().any(|o| o.1) && outcomes.iter().any(|o| !o.1) {
+                    ctx.violation("C11/decode-of-encode-depends-on-carrier", format!("at counter-signature depth {} the encoding decodes for some nesting forms but not for others: {:?}", depth, outcomes), J::Null);
                 }
             }
             _ => {
